@@ -1,10 +1,12 @@
 import WnVerif.Drv.Graph
+import WnVerif.Drv.Morphy
 open Lean WnVerif.Drv
 
 def dispatch (j : Json) : Json :=
   match getStr j "op" with
   | "graph" => opGraph j
   | "ic" => opIc j
+  | "morphy" => opMorphy j
   | "ping" => jObj [("pong", jNat 1)]
   | op => jObj [("bad-op", jStr op)]
 
